@@ -376,6 +376,70 @@ def check(ctx):
             if bad is not None:
                 ctx.violation('C13.R4', f._mod.rel, node, Model.qual(f), 'stores %s into the specification dictionary: pformat()/eval() (the parse sub-command) cannot round-trip it' % ast.unparse(bad)[:60], stmt=desc)
 
+    # ---- R6: what is stored in the dictionary belongs to the dictionary.  A value handed in by the caller of compile_dict (a parameter that is not itself part of
+    #      the dictionary: the any_defined_by_choices mapping, an option) must not be stored by reference: the caller may change it afterwards, and a guard that
+    #      compares the stored object with the argument then compares an object with itself.
+    ctx.rule('C13.R6', 'no caller-owned argument is stored by reference into the specification dictionary')
+    # names that hold (a part of) what the caller of compile_dict() handed in besides the dictionary itself: forward taint from the parameters of the public
+    # compile functions, through assignments, loops (elements of a tainted container) and calls (argument -> parameter), to a fixpoint
+    ext = {}
+    entry = [model.func(COMP, n_) for n_ in ('compile_dict',) if n_ in model.mod(COMP).functions]
+    for f_ in entry:
+        ps_ = flow.param_names(f_)
+        ext[f_] = set(ps_[1:])
+    all_funcs = [n_ for rel_ in (COMP, BASE) for n_ in ast.walk(model.mod(rel_).tree) if isinstance(n_, ast.FunctionDef)]
+    changed = True
+    rounds = 0
+    while changed and rounds < 10:
+        changed = False
+        rounds += 1
+        for f_ in all_funcs:
+            cur = ext.setdefault(f_, set())
+            before = len(cur)
+            for n_ in walk_no_nested(f_):
+                if isinstance(n_, ast.Assign) and (names_in(n_.value) & cur):
+                    cur |= {x for t_ in n_.targets for x in flow.target_names(t_)}
+                elif isinstance(n_, (ast.For, ast.comprehension)) and (names_in(n_.iter) & cur):
+                    cur |= set(flow.target_names(n_.target))
+                elif isinstance(n_, ast.Call):
+                    gdef = None
+                    skip = 0
+                    if isinstance(n_.func, ast.Name):
+                        r_ = f_._mod.resolve_name(n_.func.id)
+                        gdef = r_ if isinstance(r_, ast.FunctionDef) else None
+                    elif isinstance(n_.func, ast.Attribute) and isinstance(n_.func.value, ast.Name) and n_.func.value.id == 'self' and getattr(f_, '_cls', None) is not None:
+                        r_ = f_._cls.find_method(n_.func.attr)
+                        gdef, skip = (r_[1], 1) if r_ else (None, 0)
+                    if gdef is None:
+                        continue
+                    gp = flow.param_names(gdef)[skip:]
+                    tgt = ext.setdefault(gdef, set())
+                    for k_, a_ in enumerate(n_.args):
+                        if k_ < len(gp) and (names_in(a_) & cur) and gp[k_] not in tgt:
+                            tgt.add(gp[k_])
+                            changed = True
+            if len(cur) != before:
+                changed = True
+    n6 = 0
+    for f, node, root, desc in allowed_sites:
+        if not isinstance(node, ast.Assign):
+            continue
+        al6 = tainted_names(f)
+        v6 = sem.View(f)
+        val = v6.expr(node.value)
+        n6 += 1
+        alias = None
+        if isinstance(val, ast.Name) and val.id in ext.get(f, set()) and val.id not in al6:
+            alias = val.id
+        ctx.instance('C13.R6', '%s [%s]' % (Model.qual(f), desc[:80]), 'owned value' if alias is None else 'VIOLATION', node=node, file=f._mod.rel)
+        if alias is not None:
+            ctx.violation('C13.R6', f._mod.rel, node, Model.qual(f),
+                          '`%s` stores `%s`, (a part of) an argument of compile_dict() other than the dictionary, by reference in the shared dictionary: when the caller changes that '
+                          'object in place and compiles the dictionary again, what the dictionary remembers changes with it (an "already processed with the same argument" test is then '
+                          'always true) and the compile differs from a fresh parse compiled with the same options' % (desc, alias), stmt=desc)
+    if n6 < 10:
+        raise AnalysisError('C13.R6 examined only %d stores' % n6)
+
     # ---- R5: module-level mutable state on compile paths
     cg = CallGraph(model)
     roots = [model.func(COMP, 'compile_dict'), model.func(COMP, 'compile_string'), model.func(COMP, 'compile_files'),
@@ -573,3 +637,12 @@ REFACTORS = [
          new="""                if 'tag' not in member:
                     member['tag'] = dict()"""),
 ]
+
+MUTANTS.append(dict(name='any-defined-by choices remembered by reference to skip re-parsing', file=COMP,
+                    old="""    type_['choices'] = {}
+""", new="""    if 'choices' in type_ and type_.get('choices-source') == choices:
+        return
+
+    type_['choices-source'] = choices
+    type_['choices'] = {}
+""", expect='C13.R6'))
